@@ -15,7 +15,7 @@ func init() {
 		ID: "C07", Fn: c07,
 		Rule:        "one evaluation = one mate/stalemate classification observed through the verif hook inside search/qsearch (position FEN handed to refchess: legal-move count and in-check status), over searches of blocked-pawn / zugzwang / few-move / ordinary positions at depth 3-8 under the default configuration and random combinations of the pruning switches (FP, LMP, LMR, null move, razoring, RFP, QFP); plus terminal roots through the public result; distinct = distinct classified positions (FEN identity, kind); in 40% of the random-pruning searches the remaining switches are varied too (hash table on/off and its sub-switches, PVS, killers, history, counter moves, MDP, extensions, IID with IIDDepth 2-6 so that it runs at these depths); a fifth of the roots carry a half-move clock of 94-99 and a fifth a history of repeated positions (moves answered by the draw shortcut without a child search)",
 		Assumptions: []string{"the hook only reads the position; refchess decides legality", "a classification is only made when the search was not stopped (the engine's own guard)"},
-		Required:    []string{"searches", "classifications", "mate_classifications", "stalemate_classifications", "qsearch_mate_classifications", "searches_all_pruning_on", "searches_random_pruning", "terminal_roots", "searches_with_fp_prunings", "searches_other_switches_varied", "searches_with_iid", "roots_fifty_move_edge", "roots_with_cycle_history"},
+		Required:    []string{"searches", "classifications", "mate_classifications", "stalemate_classifications", "qsearch_mate_classifications", "searches_all_pruning_on", "searches_random_pruning", "terminal_roots", "searches_with_fp_prunings", "searches_other_switches_varied", "searches_with_iid", "roots_fifty_move_edge", "roots_with_cycle_history", "stalemate_prone_root_searches"},
 		MinEvals:    1000,
 		TimeoutQ:    15 * 60e9,
 	})
@@ -45,6 +45,14 @@ var c07Positions = []string{
 	"8/2p5/3p4/KP5r/1R3p1k/8/4P1P1/8 w - - 0 1",
 	"6k1/5ppp/8/8/8/8/5PPP/R5K1 w - - 0 1",
 	"3r2k1/pp3ppp/2p5/8/3qP3/1B6/PP3QPP/6K1 w - - 0 1",
+	// one move before a stalemate in which the stalemated side still owns a hemmed-in officer
+	// (so the search tries its null move there), with checking alternatives next to it
+	"k5q1/8/8/8/8/1p6/1P6/B6K b - - 0 1",
+	"k7/6q1/8/8/8/1p6/1P6/B6K b - - 0 1",
+	"k7/8/8/8/6q1/p1p5/P1P5/RB5K b - - 0 1",
+	"k7/8/8/8/1p4q1/1Pp5/2P5/N6K b - - 0 1",
+	"1b5K/1p6/1P4Q1/8/8/8/8/k7 w - - 0 1",
+	"b6k/1p6/1P6/8/8/6Q1/8/K7 w - - 0 1",
 }
 
 type legalInfo struct {
@@ -194,6 +202,25 @@ func c07(c *Ctx) {
 		}
 		if i < 3 {
 			rep.Sample(map[string]interface{}{"root": curRoot, "depth": depth, "config": curCfg, "checkmates": s.Statistics().Checkmates, "stalemates": s.Statistics().Stalemates})
+		}
+	}
+	// the stalemate-prone roots systematically: every depth, with and without hash table
+	for i, f := range c07Positions[len(c07Positions)-6:] {
+		if !c.Mine(i) {
+			continue
+		}
+		for depth := 3; depth <= 8; depth++ {
+			for _, useTT := range []bool{true, false} {
+				restoreSearchCfg()
+				config.Settings.Search.UseTT = useTT
+				curCfg = fmt.Sprintf("default tt=%v", useTT)
+				curRoot = f
+				s.NewGame()
+				rep.Begin(fmt.Sprintf("search %s depth %d %s", curRoot, depth, curCfg))
+				runSearch(s, engPos(f), search.Limits{Depth: depth, Nodes: 400000})
+				rep.Inc("searches")
+				rep.Inc("stalemate_prone_root_searches")
+			}
 		}
 	}
 	// terminal roots through the public result
